@@ -59,6 +59,7 @@ def parse_file(lib, filename, vfs=None):
 
 # fields that are not functions of the model description
 SKIP_FIELDS = {"signature"}
+ATOL64 = 1e-14     # absolute floor for float64 arrays (values that are exactly 0 on one side, ~1e-17 on the other)
 
 _VIS = {}
 
@@ -110,7 +111,11 @@ def compare(lib, a, b, tol64=1e-10, tol32=0.0, int_exact=True):
                 bad.append((f, "nonfinite"))
                 continue
             scale = max(np.max(np.abs(xf[~nan])), np.max(np.abs(yf[~nan])), 1e-300)
-            e = float(np.max(np.abs(xf - yf)[~nan]) / scale)
+            dmax = float(np.max(np.abs(xf - yf)[~nan]))
+            if x.dtype == np.float64 and dmax <= ATOL64:
+                noise.append((f, 0.0))
+                continue
+            e = dmax / scale
             tol = tol64 if x.dtype == np.float64 else tol32
             (noise if e <= tol else bad).append((f, e))
         else:
@@ -120,6 +125,24 @@ def compare(lib, a, b, tol64=1e-10, tol32=0.0, int_exact=True):
     if vis_bytes(lib, a) != vis_bytes(lib, b):
         bad.append(("vis", "bytes differ"))
     return bad, noise
+
+
+def permuted(a, b):
+    """True if b's geoms/sites/cameras/lights are a non-trivial permutation of a's (same multiset of
+    (type, size / pose) rows in a different order): the signature of elements re-ordered by the writer."""
+    for typ, cols, n in (("geom", ("geom_type", "geom_size", "geom_rgba"), "ngeom"), ("site", ("site_type", "site_size", "site_rgba"), "nsite"),
+                         ("cam", ("cam_fovy", "cam_pos"), "ncam"), ("light", ("light_pos", "light_dir"), "nlight")):
+        na, nb = int(a.field(n)[0]), int(b.field(n)[0])
+        if na != nb or na < 2:
+            continue
+        ra = np.column_stack([a.field(c).reshape(na, -1).astype(np.float64) for c in cols]).round(9)
+        rb = np.column_stack([b.field(c).reshape(nb, -1).astype(np.float64) for c in cols]).round(9)
+        if not np.array_equal(ra, rb):
+            sa = ra[np.lexsort(ra.T[::-1])]
+            sb = rb[np.lexsort(rb.T[::-1])]
+            if np.array_equal(sa, sb):
+                return typ
+    return None
 
 
 # ------------------------------------------------------------------ canonical text
